@@ -41,7 +41,7 @@ ID = "C05"
 READY = True
 ORACLE = "c05"
 HARNESS_BIN = "c05"
-NCASES = {"quick": 8000, "thorough": 160000}
+NCASES = {"quick": 8500, "thorough": 170000}
 CASE_TIMEOUT = {"quick": 30, "thorough": 90}
 SHRINK = False  # the values of a case are tied to their route parameters (ones n, masks, ...): shrinking one breaks the case
 
@@ -95,9 +95,12 @@ LEVEL_NOTE = ("Trusted: Coq kernel, extraction (FastZ.v), zarith, the harness an
               "are the transcriptions of C02 / C09, but their results reach the Repr through the same generic last step (store_fit = "
               "from_buffer + with_sign on the value) rather than through a word-by-word model of the buffer the operation leaves; the new "
               "op `iop` compares value, length and inline flag of every output with that composed model on each run; "
-              "(b) float exp/ln/powi, f32/f64 and rational sources, and for add/sub/div/sqrt 'the pair C03's model returns is what the "
-              "code hands to Repr::new' (C03's own correspondence run compares those pairs; here the normalisation of every such result "
-              "is checked per case on the routes r_add/sub/aeq/seq/mul/div in the four ownership forms, r_sqr...r_ln1p, r_ctx*); the "
+              "(b) float exp/ln/powi, f32/f64 and rational sources (normalisation checked per case on their routes); that the pair "
+              "C03's model returns is what the code hands to Repr::new is compared, not proved: the new op `fprod` replays "
+              "fprod_asis (C03's as-is model of Context::add/sub/mul/div/inv/sqrt/sqr/cubic, then Repr::new; proved normalised: "
+              "C05_float_fprod_normalized) with the digit estimates the run reports and compares significand, exponent and flag with the "
+              "Repr the library returned - fidelity 100 % after Context::div was modelled with its normalised shortened dividend "
+              "(ctx_div_n; C03's ctx_div keeps the unnormalised pair and then deviates from the code in rare cases); the "
               "ln/exp route of convert_base (|exponent| > 38) is not modelled; (c) the log2 estimators themselves (C12's property; the op "
               "`dub` checks the two hypotheses of C05_digits_ub_contract on the reported f32 estimates of every case) and significands of "
               "B^(2^24) or more; (d) the hasher call sequence. Regenerated bodies: if float/src/cmp.rs, float/src/repr.rs or "
@@ -126,7 +129,11 @@ RULE = ("cases = 2 or 3 values each produced along a route (from_words, padded w
         "value/length/inline flag against the composed Repr-level model; op dub = Repr::digits_ub / digits_lb for bases 2, 3, 7, 10, 16, "
         "100, 65535 x significands {B^k - 1, B^k, B^k + 1 for k up to 3000 (20000 thorough), 1..40 random words, 2^k +- 1}: "
         "|sig| < B^digits_ub, digits_lb <= digits, the reported estimates meet the contract, and the regenerated arms on Flocq's binary32 "
-        "reproduce digits_ub bit for bit. "
+        "reproduce digits_ub bit for bit; op fprod = Context::<mode>::new(p).{add, sub, mul, div, inv, sqrt, sqr, cubic} on normalised "
+        "Reprs for bases 2, 3, 10, 16 x six modes x precisions {0, 1, 2, digits-3..digits+1, 2 digits+1, random} x operand relations "
+        "{sums/differences ending in zero digits, cancellation, far apart (digit-estimate branch), zero/one, cofactor products, perfect "
+        "squares, negative radicand, zero divisor, precision 0}: result normalised with canonical significand, and significand, "
+        "exponent, flag equal to the replayed model. "
         "A case is non-trivial when the oracle checked layout, value and every pair answer; distinct = distinct case texts.")
 EXPLANATION = ("Theorems (coq/props/C05.v) are about models transcribed from integer/src/{repr,cmp,buffer}.rs, float/src/{cmp,repr,utils}.rs, "
                "rational/src/cmp.rs. Each run builds values along many routes in the real library, reads capacity/len/inline through "
@@ -799,11 +806,58 @@ def dub_case(rng, tier):
     return "dub %s %s" % (DUB_BASES[b], hx(s * rng.choice([1, -1])))
 
 
+FOPS = ["add", "add", "sub", "sub", "mul", "div", "div", "inv", "sqrt", "sqrt", "sqr", "cubic"]
+
+
+def fprod_case(rng, tier):
+    """Context::op on two normalised Reprs: exact results that end in zero digits (must be stripped), cancellations,
+    far-apart operands (the digit-estimate branch), perfect squares, panics"""
+    b = rng.choice([2, 2, 10, 10, 16, 3])
+    op = rng.choice(FOPS)
+    s1, e1, _ = flt_value(rng, b)
+    d1 = ndig(b, s1)
+    k = rng.below(10)
+    if k < 2:
+        s2, e2 = norm(b, (b ** rng.range(1, 6)) * rng.choice([1, 3, 7]) - (s1 % b) if op == "add" else s1 + b ** rng.range(1, 4) * (s1 % b or 1), e1)
+    elif k < 4:
+        s2, e2 = flt_related(rng, b, s1, e1, d1)
+    elif k == 4:
+        s2, e2 = norm(b, gen_sig(rng, b), e1 + rng.choice([-1, 1]) * (d1 + rng.choice([0, 1, 2, 3, 30])))
+    elif k == 5:
+        s2, e2 = rng.choice([(0, 0), (1, 0), (-1, 0), norm(b, s1, e1)])
+    else:
+        s2, e2, _ = flt_value(rng, b)
+    if s2 == 0:
+        e2 = 0
+    if op == "sqrt":
+        if rng.chance(1, 2):
+            r = gen_sig(rng, b) % (b ** 12) or 1
+            s1, e1 = norm(b, r * r * rng.choice([1, b * b]), 2 * rng.range(-20, 20))
+        elif rng.chance(1, 8):
+            s1 = -abs(s1)  # documented panic
+        else:
+            s1 = abs(s1)
+        d1 = ndig(b, s1)
+    if op in ("mul", "sqr", "cubic") and rng.chance(1, 2):
+        # cofactors: the product is a power of the base times something (trailing zeros to strip)
+        pp = prime_power(b)
+        f = min(q for q in range(2, b + 1) if b % q == 0)
+        s1, e1 = norm(b, f ** rng.range(1, 5) * rng.choice([1, 3]), e1)
+        s2, e2 = norm(b, (b // f if b // f > 1 else f) ** rng.range(1, 5) * rng.choice([1, 7]), e2)
+        d1 = ndig(b, s1)
+    p = rng.choice([0, 1, 2, d1, d1, d1 + 1, max(1, d1 - 1), max(1, d1 - 3), 2 * d1 + 1, rng.range(1, 40)])
+    if op in ("div", "inv", "sqrt") and not rng.chance(1, 10):
+        p = max(p, 1)
+    return "fprod %s %s %s %x %s %s %s %s" % (BASES[b], rng.choice(MODES), op, p, hx(s1), hx(e1), hx(s2), hx(e2))
+
+
 def gen_cases(rng, tier, n):
     out = []
     while len(out) < n:
-        k = rng.below(116)
-        if k >= 108:
+        k = rng.below(124)
+        if k >= 116:
+            out.append(fprod_case(rng, tier))
+        elif k >= 108:
             out.append(dub_case(rng, tier))
         elif k >= 100:
             out.append(iop_case(rng, tier))
